@@ -128,11 +128,12 @@ CONDITIONS = [
                               [{"n": 3, "o4": 0, "o1": a, "o2": b, "o3": c, "check": True} for (a, b) in ((0, 1), (3, 2)) for c in range(NOPS)] +
                               [{"n": 4, "o1": 0, "o2": 1, "o3": 9, "o4": d, "check": True} for d in (4, 5, 3, 10)] +
                               [{"n": 4, "o1": 1, "o2": 0, "o3": 9, "o4": d, "check": True} for d in (4, 5, 10)],
-                     "thorough": [{"n": 3, "o4": 0, "o1": a, "o2": b, "check": (a + b) % 3 != 0} for a in range(NOPS) for b in range(NOPS)] +
-                                 [{"n": 4, "o1": a, "o2": b, "o3": c, "check": True} for (a, b) in ((0, 1), (1, 0), (3, 2)) for c in (4, 5, 6, 9, 10)]},
+                     "thorough": [{"n": 3, "o4": 0, "o1": a, "o2": b, "o3": c, "as_text": (a + b + c) % 2 == 1} for a in range(NOPS) for b in range(NOPS) for c in range(NOPS)
+                                  if (a + 2 * b + 3 * c) % 4 == 0] +
+                                 [{"n": 4, "o1": a, "o2": b, "o3": c, "o4": d, "check": True} for (a, b) in ((0, 1), (1, 0), (3, 2)) for c in (4, 5, 9, 10) for d in (4, 5, 3, 10)]},
          timeout={"quick": 600, "thorough": 1800}, path_timeout=60,
          functions=["cache.Cache.set/get/get_identity/reset/delete/active/entities/subjects", "time_util.after/before/not_on_or_after", "ident.code/decode"],
-         bounds="histories of 2 and (sampled first two ops) 3 operations in quick, all 3-op and sampled 4-op histories in thorough, over 13 operation codes "
+         bounds="histories of 2 and (sampled first two ops) 3 operations in quick, every fourth 3-op history and sampled 4-op histories in thorough (a partition with a free third operation does not finish in 30 min), over 13 operation codes "
                 "(store from two sources for three subjects - two differing in one NameID field, one lacking it -, overwrite, reset, delete, a get_identity read in mid-history, "
                 "a clock tick to a later symbolic instant); three symbolic expiry instants (stored as epoch seconds or as xs:dateTime text) and a symbolic clock in [1, 10^6] "
                 "(z3 decides every ordering incl. ties); expiry checking on/off"),
